@@ -11,6 +11,8 @@ use routinator::slurm::LocalExceptions;
 use crate::gen::Published;
 
 pub mod server;
+pub mod rrdp;
+pub mod tls;
 
 static INIT: Once = Once::new();
 
